@@ -575,6 +575,99 @@ class EvictingStorage(PublicKeyStorage):
         self.last = (Name.to_bytes(name), bytes(key_bits))
 
 
+NS_SCHEMA = '''#KEY: "KEY"/_/_/_
+#root: "ca"/"root"/#KEY
+#l1: "org"/dept/#KEY <= #root
+#l2: "org"/dept/"unit"/u/#KEY <= #l1
+#data: "org"/dept/"unit"/u/"data"/_ <= #l2
+#memo: "org"/dept/"memo"/_ <= #l1
+'''
+
+
+def check_other_namespaces(ctx, rng):
+    """The anchor's own identity (/ca/root) is no name space the chain has to live in: certificates and packets named elsewhere
+    (/org/...) chain to it through the schema.  On the same validator instance, afterwards: packets that share the NAME and the
+    SIGNATURE VALUE of an accepted packet or certificate but carry other content have no valid signature - accepted before or not."""
+    for rep in range(ctx.n(3, 60)):
+        kinds = [rng.choice(['ec', 'ec', 'rsa', 'ec384']) for _ in range(3)]
+        k0 = Key(rng, kinds[0], [C(b'ca'), C(b'root'), C(b'KEY'), C(b'k0')])
+        a_name, a_wire = self_sign(k0.name, k0.pub, k0.signer(k0.name))
+        a_name = [bytes(c) for c in a_name]
+        k1 = Key(rng, kinds[1], [C(b'org'), C(b'd1'), C(b'KEY'), C(b'k1')])
+        n1, w1 = derive_cert(k1.name, 'iss', k1.pub, k0.signer(a_name), START, 3650 * 86400)
+        n1 = [bytes(c) for c in n1]
+        k2 = Key(rng, kinds[2], [C(b'org'), C(b'd1'), C(b'unit'), C(b'u7'), C(b'KEY'), C(b'k2')])
+        n2, w2 = derive_cert(k2.name, 'iss', k2.pub, k1.signer(n1), START, 3650 * 86400)
+        n2 = [bytes(c) for c in n2]
+        d_name = [C(b'org'), C(b'd1'), C(b'unit'), C(b'u7'), C(b'data'), C(b'x%d' % rep)]
+        data = bytes(make_data(d_name, MetaInfo(), b'genuine content', k2.signer(n2)))
+        memo = bytes(make_data([C(b'org'), C(b'd1'), C(b'memo'), C(b'm')], MetaInfo(freshness_period=10), b'memo', k1.signer(n1)))
+
+        def other_content(wire, new):
+            r0 = rc.strict_data(wire)
+            b0, vs0, ve0 = rc.outer(wire, 6)
+            parts = []
+            for (t, ts, cvs, cve) in rc.children(b0, vs0, ve0):
+                parts.append(rc.enc_tlv(0x15, new) if t == 0x15 else b0[ts:cve])
+            return rc.enc_tlv(6, b''.join(parts))
+        forged = other_content(data, b'forged content!')
+        forged_memo = other_content(memo, b'mem0')
+        # a look-alike of the level-2 certificate: same name, same signature value, the attacker's key as content - and a packet
+        # signed with that key
+        evil = Key(rng, 'ec', k2.name)
+        forged_cert = other_content(bytes(w2), evil.pub)
+        evil_data = bytes(make_data(d_name[:-1] + [C(b'evil')], MetaInfo(), b'evil', evil.signer(n2)))
+        res = {}
+        storage_kind = ['default', 'memory', 'empty'][rep % 3]
+
+        async def main(S):
+            face = RecFace()
+            the_app = appv1.NDNApp(face=face, keychain=KeychainDigest())
+            main_task = asyncio.ensure_future(the_app.main_loop())
+            await asyncio.sleep(0)
+            srv = CertServer(face)
+            srv.served = {tuple(n1): bytes(w1), tuple(n2): bytes(w2)}
+            ck = Checker(compile_lvs(NS_SCHEMA), {})
+            cls = storage_of(storage_kind)
+            v = lvs_validator(ck, the_app, bytes(a_wire)) if cls is None else lvs_validator(ck, the_app, bytes(a_wire), cls())
+            out = []
+            for label, wire, exp in (('chain-named-outside-the-anchor-identity', data, True), ('same-name-and-signature-other-content', forged, False),
+                                     ('genuine-again', data, True), ('memo', memo, True), ('memo-same-name-and-signature-other-content', forged_memo, False)):
+                try:
+                    out.append((label, exp, await asyncio.wait_for(validate(v, wire), 60)))
+                except Exception as e:   # noqa
+                    out.append((label, exp, e))
+            # the look-alike certificate is what the network now serves for that name
+            srv.served[tuple(n2)] = forged_cert
+            try:
+                out.append(('packet-signed-by-look-alike-certificate-key', False, await asyncio.wait_for(validate(v, evil_data), 60)))
+            except Exception as e:   # noqa
+                out.append(('packet-signed-by-look-alike-certificate-key', False, e))
+            res['out'] = out
+            res['requests'] = list(srv.requests)
+            the_app.shutdown()
+            await asyncio.wait_for(main_task, 5)
+        S = vtime.run(main)
+        w = {'schema': NS_SCHEMA, 'anchor': rc.name_to_uri(a_name, canonical=True), 'key_kinds': kinds, 'storage': storage_kind,
+             'fetched': [rc.name_to_uri(list(r), canonical=True) for r in res.get('requests', [])]}
+        ctx.case(('other-namespace', tuple(kinds), storage_kind), nontrivial=True, sample=w if rep == 0 else None)
+        if S.result != 'ok':
+            ctx.report(f'validation-{S.result}:other-namespace', f'{S.error!r}', w)
+            continue
+        for le in S.sentinel.all():
+            ex = le.get('exception')
+            ctx.report(f'background-error:{type(ex).__name__ if ex else "?"}', f'{le.get("repr")}', w)
+        for label, exp, got in res.get('out', []):
+            ctx.event('other-namespace-' + label)
+            if isinstance(got, Exception):
+                if exp:
+                    ctx.report(f'validator-raises:{type(got).__name__}@{raising_site(got)[0]}', f'{label}: validator raised {got!r}', dict(w, step=label))
+                continue
+            if got != exp:
+                mech = f'accepted-without-valid-chain:{label}' if got else f'valid-chain-rejected:{label}'
+                ctx.report(mech, f'{label}: validator said {got}, expected {exp}', dict(w, step=label))
+
+
 def storage_of(kind):
     return {'default': None, 'memory': MemoryKeyStorage, 'empty': EmptyKeyStorage, 'evicting': EvictingStorage}[kind]
 
@@ -713,10 +806,12 @@ def run(ctx):
     ctx.rule = RULE
     rng = ctx.rng
     check_same_instance(ctx, rng)
+    check_other_namespaces(ctx, rng)
     check_single(ctx, rng)
     check_anchor(ctx, rng)
     check_histories(ctx, rng)
-    need = ['valid-chain-over-a-slow-network', 'verdict-accept', 'verdict-reject', 'history-run', 'anchor-ok', 'anchor-wrong-name', 'same-instance-history'] + ['deviation-' + d for d in set(DEVIATIONS)]
+    need = ['valid-chain-over-a-slow-network', 'verdict-accept', 'verdict-reject', 'history-run', 'anchor-ok', 'anchor-wrong-name', 'same-instance-history', 'other-namespace-chain-named-outside-the-anchor-identity',
+            'other-namespace-packet-signed-by-look-alike-certificate-key'] + ['deviation-' + d for d in set(DEVIATIONS)]
     for k in need:
         ctx.need_event(k)
     ctx.assumptions = ['RSA/ECDSA links only (the cascade checker dispatches only these); validity periods are not part of the statement',
